@@ -1,4 +1,5 @@
 (* C07Proofs.v — the front end's numbering satisfies Spec_Numbering (C07, C08). *)
+Require Import gen.CounterFacts.
 Require Import Base Syntax Front.
 Require Import gen.CodeFacts.
 Require Import spec.Spec_Numbering proofs.NumberingProofs proofs.GatherProofs.
@@ -153,16 +154,18 @@ Lemma front_inv e md files mir :
   exists main rest st, files = main :: rest /\
     gather_files st_empty files = Ok st /\ to_mir st (a_nodes main) = Ok mir.
 Proof.
-  unfold front. destruct files as [|main rest]; [discriminate|]. intro H.
+  unfold front, front_gen. destruct files as [|main rest]; [discriminate|]. intro H.
   destruct (gather_files st_empty (main :: rest)) as [st| | |] eqn:EG; cbn in H; try discriminate.
   destruct (functions_pass main) as [[]| | |]; cbn in H; try discriminate.
   destruct (cycles_pass st main) as [order| | |]; cbn in H; try discriminate.
   destruct (verify_structs md st [] order) as [store| | |]; cbn in H; try discriminate.
   destruct (to_mir st (a_nodes main)) as [m| | |] eqn:EM; cbn in H; try discriminate.
   exists main, rest, st. repeat split; try reflexivity.
+  assert (V : forall o : outcome unit, (do _ <- o; Ok m) = Ok mir -> m = mir).
+  { intros [[]| | |] HV; cbn in HV; try discriminate. now inversion HV. }
   destruct e; cbn in H.
-  - destruct (interface_verifier m) as [[]| | |]; cbn in H; try discriminate. inversion H; subst; exact EM.
-  - inversion H; subst; exact EM.
+  - apply V in H. subst. exact EM.
+  - destruct CounterFacts.lib_runs_interface_verifier; apply V in H; subst; exact EM.
 Qed.
 
 Theorem front_ops_spec e md files mir :
